@@ -163,7 +163,7 @@ def fs_for(val, variables):
 
 
 def build_fcfg(spec):
-    prods = []   # a list: Production equality ignores the features, a set would drop rules (KF-C18-3)
+    prods = []   # a list: Production equality ignores the features, a set would drop rules (repaired; formerly KF-C18-3)
     for (head, hfeat), body in spec["prods"]:
         variables = {}
         hfs = fs_for(hfeat, variables)
@@ -289,7 +289,7 @@ def run_case(case, drv):
     feats = [(h[1], tuple((i[2] if i[0] == "v" else None) for i in body)) for h, body in gs["prods"]]
     if any(skeletons[i] == skeletons[j] and feats[i] != feats[j]
            for i in range(len(skeletons)) for j in range(i + 1, len(skeletons))):
-        # two rules with the same head and body symbols but different features share one chart key (KF-C18-3)
+        # two rules with the same head and body symbols but different features share one chart key (repaired; formerly KF-C18-3)
         scope.append("duplicate_skeleton")
     ters = sorted(gs["ters"])
     words = G.words_upto(ters, 3 if len(ters) > 2 else 4)[:60]
